@@ -249,7 +249,8 @@ func TestB2C01Sequences(t *testing.T) {
 }
 
 func TestB2C01Trees(t *testing.T) {
-	leaves := []Object{nil, Integer(7), Real(1.5), Name("N"), Name("a/b"), String("s)("), String("\r\n"), NewReference(9, 1), Boolean(false)}
+	leaves := []Object{nil, Integer(7), Real(1.5), Name("N"), Name("a/b"), String("s)("), String("\r\n"), NewReference(9, 1), Boolean(false),
+		NewReference(16777215, 65535), NewReference(1, 65535), NewReference(16777215, 0), Integer(16777216), Integer(65536)}
 	var trees []Object
 	for _, a := range leaves {
 		for _, b := range leaves {
